@@ -335,10 +335,12 @@ func CheckConc(e *Env) (int, error) {
 		}
 	}
 	cov := map[string]any{
-		"evaluations":                     a.Runs,
-		"distinct_nontrivial":             len(a.Sigs),
-		"rule":                            "case = one simulated run: 2..6 caller goroutines x 1..6 read-only operations on shared keys/points/scalars/tables under one tape-decided schedule at statement granularity. distinct_nontrivial = number of distinct schedule signatures (hash of the sequence of (task, yield site) context switches) among all runs; a run with zero context switches cannot occur (>= 2 tasks).",
-		"samples":                         samplesFrom(traced, 2),
+		"evaluations":         a.Runs,
+		"distinct_nontrivial": len(a.Sigs),
+		"rule":                "case = one simulated run: 2..6 caller goroutines x 1..6 read-only operations on shared keys/points/scalars/tables under one tape-decided schedule at statement granularity. distinct_nontrivial = number of distinct schedule signatures (hash of the sequence of (task, yield site) context switches) among all runs; a run with zero context switches cannot occur (>= 2 tasks).",
+		"samples": e.samplesOrFetch(traced, 2, func() *Job {
+			return e.concJob(bins.plain["asm"], "asm", 2_000_000, 3, sites, false, "", "-trace")
+		}),
 		"runs_with_race_detector":         raceRuns,
 		"runs_plain":                      plainRuns,
 		"operations_executed":             a.Ops,
